@@ -41,3 +41,22 @@ Proof. exact generate_rollback_refuted. Qed.
 Print Assumptions C09_generate_atomic.
 Print Assumptions C09_purge_atomic.
 Print Assumptions C09_generate_rollback_refuted.
+
+(* an explicit undo failure needs a storage fault: on a fault-free script both operations end in Ok or in
+   a plain error with the state unchanged (theorems above); and generate SUCCEEDS on a fault-free script
+   whenever the document accepts the method and the digest is free - so Ok is reachable and the
+   atomicity theorems are not vacuous - for every state, key, id, scope and script *)
+Theorem C09_generate_undo_failed_needs_fault : forall sn st k ou sc fs st',
+  generate sn st k ou sc fs = (SUndoFailed, st') -> In true fs.
+Proof. exact generate_undo_failed_needs_fault. Qed.
+Theorem C09_purge_undo_failed_needs_fault : forall st u fs st',
+  purge st u fs = (SUndoFailed, st') -> In true fs.
+Proof. exact purge_undo_failed_needs_fault. Qed.
+Theorem C09_generate_fault_free_succeeds : forall sn st k u sc fs d',
+  (forall b, In b fs -> b = false) ->
+  insert_method (s_doc st) {| m_id := u; m_data := k |} sc = inl d' -> kids_get (s_kids st) k = None ->
+  generate sn st k (Some u) sc fs = (SOk, {| s_doc := d'; s_keys := s_keys st ++ [k]; s_kids := s_kids st ++ [(k, k)] |}).
+Proof. exact generate_fault_free_succeeds. Qed.
+Print Assumptions C09_generate_undo_failed_needs_fault.
+Print Assumptions C09_purge_undo_failed_needs_fault.
+Print Assumptions C09_generate_fault_free_succeeds.
